@@ -5,10 +5,7 @@ package rtpfragmented
 // Contracts checked by /verif/govc (see /verif/DESIGN.md). Comment-only file.
 
 // sumlen(s, n): total number of bytes in the first n fragments.
-//@ ufun sumlen(s [][]byte, n int) int
-//@   axiom sumlen(s, 0) == 0
-//@   axiom n >= 0 ==> sumlen(s, n+1) == sumlen(s, n) + len(s[n])
-//@   trigger sumlen(s, n+1)
+//@ ufun sumlen(s [][]byte, n int) int = ite(n <= 0, 0, sumlen(s, n-1) + len(s[n-1]))
 //@   lemma[n; t [][]byte] (forall k :: 0 <= k && k < n ==> len(s[k]) == len(t[k])) ==> sumlen(s, n) == sumlen(t, n)
 //@   trigger sumlen(s, n)
 //@   trigger sumlen(t, n)
@@ -27,3 +24,40 @@ package rtpfragmented
 //@   ensures[C08] err != nil ==> ret == nil
 //@   ensures[C08] err == nil ==> fresh(ret) || sameslice(ret, pkt.Payload)
 //@   modifies fields(d), elems(d.fragments), fresh
+
+//@ func packetCount
+//@   requires avail > 0 && le >= 0
+//@   ensures ret >= 0 && (ret-1)*avail < le && le <= ret*avail
+//@   modifies nothing
+
+// C06: size limit, numbering, marker, frame. C03 (tiling): the payloads are consecutive
+// windows of the input frame, so concatenating them (what the decoder does) gives the frame.
+//@ func (e *Encoder) Encode
+//@   opt frame-tag=C06
+//@   requires e.SSRC != nil && e.PayloadMaxSize >= 1 && len(frame) >= 1
+//@   ensures[C06] err == nil && len(ret) >= 1
+//@   ensures[C06] forall j :: 0 <= j && j < len(ret) ==> ret[j] != nil && len(ret[j].Payload) <= e.PayloadMaxSize && len(ret[j].Payload) >= 1
+//@   ensures[C06] forall j :: 0 <= j && j < len(ret) ==> ret[j].SequenceNumber == old(e.sequenceNumber) + uint16(j)
+//@   ensures[C06] e.sequenceNumber == old(e.sequenceNumber) + uint16(len(ret))
+//@   ensures[C06] forall j :: 0 <= j && j < len(ret) ==> ret[j].Marker == (j == len(ret)-1)
+//@   ensures[C06] forall j :: 0 <= j && j < len(ret) ==> ret[j].PayloadType == e.PayloadType && ret[j].SSRC == *e.SSRC
+//@   ensures[C03] forall j :: 0 <= j && j < len(ret) ==> ref(ret[j].Payload) == ref(frame) && off(ret[j].Payload) == off(frame) + j*e.PayloadMaxSize
+//@   ensures[C03] forall j :: 0 <= j && j < len(ret)-1 ==> len(ret[j].Payload) == e.PayloadMaxSize
+//@   ensures[C03] (len(ret)-1)*e.PayloadMaxSize + len(ret[len(ret)-1].Payload) == len(frame)
+//@   ensures fresh(ret)
+//@   modifies e.sequenceNumber, fresh
+//@   loop 1
+//@     invariant 0 <= i && i <= packetCount && len(ret) == packetCount && packetCount >= 1 && fresh(ret)
+//@     invariant avail == e.PayloadMaxSize && avail >= 1
+//@     invariant (packetCount-1)*avail < len(frame) && len(frame) <= packetCount*avail
+//@     invariant i < packetCount ==> pos == i*avail && le == avail
+//@     invariant i == packetCount ==> pos == len(frame)
+//@     invariant e.sequenceNumber == old(e.sequenceNumber) + uint16(i)
+//@     invariant forall j :: 0 <= j && j < i ==> ret[j] != nil && fresh(ret[j]) && len(ret[j].Payload) <= avail && len(ret[j].Payload) >= 1
+//@     invariant forall j :: 0 <= j && j < i ==> ret[j].SequenceNumber == old(e.sequenceNumber) + uint16(j)
+//@     invariant forall j :: 0 <= j && j < i ==> ret[j].Marker == (j == packetCount-1)
+//@     invariant forall j :: 0 <= j && j < i ==> ret[j].PayloadType == e.PayloadType && ret[j].SSRC == *e.SSRC
+//@     invariant forall j :: 0 <= j && j < i ==> ref(ret[j].Payload) == ref(frame) && off(ret[j].Payload) == off(frame) + j*avail
+//@     invariant forall j :: 0 <= j && j < i && j < packetCount-1 ==> len(ret[j].Payload) == avail
+//@     invariant i == packetCount ==> (packetCount-1)*avail + len(ret[packetCount-1].Payload) == len(frame)
+//@     decreases packetCount - i
